@@ -1291,18 +1291,23 @@ type codecCLIResult struct {
 // that a command that hangs on every run does not cost two minutes each time.
 var codecCLIWatchdog atomic.Int64
 
+// codecCLIHangConfirmed is set once a command has hung twice in a row with the full watchdog.
+var codecCLIHangConfirmed atomic.Bool
+
 func init() { codecCLIWatchdog.Store(int64(120 * time.Second)) }
 
 // codecRunVegeta runs the real CLI with TZ=UTC and a generous watchdog.
 func codecRunVegeta(bin string, args ...string) codecCLIResult {
 	res := codecRunVegetaOnce(bin, args...)
-	if res.Hang == "blocked" {
+	if res.Hang == "blocked" && !codecCLIHangConfirmed.Load() {
 		// "used next to no CPU time" is also what a starved machine looks like: the verdict stands only
 		// if the very same command, run again with the full watchdog, hangs in the same way
 		codecCLIWatchdog.Store(int64(120 * time.Second))
-		if again := codecRunVegetaOnce(bin, args...); again.Hang != "blocked" {
+		again := codecRunVegetaOnce(bin, args...)
+		if again.Hang != "blocked" {
 			return again
 		}
+		codecCLIHangConfirmed.Store(true) // from now on a hang at the short watchdog is taken at its word
 	}
 	return res
 }
